@@ -64,6 +64,7 @@ type c07 struct {
 	garbage map[int64]bool // log sequences of undecodable entries
 	part2   replica.Partition // the log of another leader of the same family, replicated to this node (nil = none)
 	shutting bool          // a clean shutdown is in progress (overlap mode)
+	ioArmed  bool          // I/O errors may be injected (inside flush operations)
 	crashFS float64
 	crashY  float64
 }
@@ -82,6 +83,10 @@ func genC07(rng *rand.Rand, tier string) *core.Plan {
 	p.Cfg["crash_y_pm10"] = []int{0, 2, 10, 40}[rng.Intn(4)] // per 10000 function entries, while armed
 	overlap := rng.Intn(3) == 0                                // clean shutdowns do not wait for a running flush job
 	other := rng.Intn(2) == 0                                  // the node also holds the log of another leader of the family
+	if rng.Intn(4) == 0 {
+		p.Cfg["ioerr_pm"] = []int{100, 300, 1000}[rng.Intn(3)] // table writes of the metadata store may fail inside flush jobs
+		p.Cfg["ioerr_max"] = 1 + rng.Intn(2)
+	}
 	if other {
 		p.Cfg["other_leader"] = 1
 	}
@@ -412,6 +417,23 @@ func runC07(c *core.RunCtx) {
 	kv.VerifSetFS(pre)
 	version.VerifSetFS(pre)
 	table.VerifSetFS(pre)
+	if pm := c.Plan.C("ioerr_pm", 0); pm > 0 {
+		// a table write of the metadata store fails with an I/O error while a flush job runs (disk full): the job
+		// reports it and stops; nothing may be persisted that depends on what that flush was about to persist
+		left := c.Plan.C("ioerr_max", 1)
+		table.VerifSetFSFail(func(op, path string) error {
+			if !h.ioArmed || left == 0 || h.dead || sim.CurInc() != h.inc || !(op == "write" || op == "sync" || op == "flush") || !strings.Contains(path, "/meta/") {
+				return nil
+			}
+			if !sim.Tape.Chance(float64(pm) / 1000) {
+				return nil
+			}
+			left--
+			sim.Fault("io-error@meta-" + op)
+			sim.Event("injected I/O error at %s %s", op, strings.TrimPrefix(path, c.Dir))
+			return fmt.Errorf("%s: injected: no space left on device", op)
+		})
+	}
 	sim.OnYield = func(label string) {
 		if !h.armed || h.dead || h.crashY == 0 || sim.CurInc() != h.inc {
 			return
@@ -447,6 +469,7 @@ func runC07(c *core.RunCtx) {
 		kv.VerifSetFS(nil)
 		version.VerifSetFS(nil)
 		table.VerifSetFS(nil)
+		table.VerifSetFSFail(nil)
 		sim.OnYield = nil
 		sim.OnPanic = nil
 	}()
@@ -508,14 +531,17 @@ func runC07(c *core.RunCtx) {
 				case "flush":
 					if db, ok := h.node.Engine.GetDatabase(h.db); ok {
 						sim.Fault("flush-request")
+						h.ioArmed = true
 						_ = db.Flush()
 					}
 				case "flushwait":
 					if db, ok := h.node.Engine.GetDatabase(h.db); ok {
 						sim.Fault("flush-request")
+						h.ioArmed = true
 						_ = db.Flush()
 						simrt.Sleep(time.Millisecond)
 						h.waitFlush()
+						h.ioArmed = false
 					}
 				case "gc":
 					sim.Fault("log-gc")
@@ -534,10 +560,12 @@ func runC07(c *core.RunCtx) {
 					simrt.Sleep(26 * time.Hour)
 					h.crashNow("idle-after-expiry") // the next incarnation recovers and reads everything back
 				case "check":
+					h.ioArmed = false
 					h.check("after " + op.String())
 				case "restart":
 					// clean shutdown in the order of the storage runtime: stop replication, close engine, close log
 					h.armed = false
+					h.ioArmed = false
 					sim.Fault("clean-restart")
 					// a shutdown that overlaps a running flush job is not what this property is about (and it
 					// can hang: dataFamily.Close waits for the flush while holding the lock the flush needs)
